@@ -1104,6 +1104,7 @@ def make_builtins(interp):
         "dict": Model(b_dict, "dict", dict), "int": Model(b_int, "int", int), "float": Model(b_float, "float", float),
         "bool": Model(b_bool, "bool", bool), "str": Model(b_str, "str", str), "repr": Model(b_str, "repr"),
         "isinstance": Model(b_isinstance, "isinstance"), "issubclass": Model(b_issubclass, "issubclass"),
+        "vars": Model(lambda interp, o: (o.fields if isinstance(o, Obj) else vars(o)), "vars"),      # the instance dictionary itself
         "type": Model(b_type, "type", type), "hasattr": Model(b_hasattr, "hasattr"), "getattr": Model(b_getattr, "getattr"),
         "setattr": Model(b_setattr, "setattr"), "callable": Model(b_callable, "callable"), "iter": Model(b_iter, "iter"),
         "next": Model(b_next, "next"), "divmod": Model(b_divmod, "divmod"), "pow": Model(b_pow, "pow"),
